@@ -32,6 +32,8 @@ Definition py_enumerate {A} (l : list A) : list (Z * A) := combine (py_range (py
 Definition py_zip {A B} (a : list A) (b : list B) : list (A * B) := combine a b.
 Definition py_in {A} (eqb : A -> A -> bool) (x : A) (l : list A) : bool := existsb (eqb x) l.
 Definition py_frozenset {A} (l : list A) : list A := l.
+(* truth value of a sequence: not empty *)
+Definition py_truthy {A} (l : list A) : bool := match l with [] => false | _ :: _ => true end.
 Definition py_sorted_keys (l : list key) : list key := ksort l.
 
 Section Dict.
@@ -73,6 +75,10 @@ Fixpoint py_dedup {K} (eqb : K -> K -> bool) (l : list K) : list K :=
   end.
 
 (* ------------------------------------------------------------------------------------ *)
+(* `x if x else ()` on a sequence *)
+Lemma py_truthy_self {A} (l : list A) : (if py_truthy l then l else []) = l.
+Proof. destruct l; reflexivity. Qed.
+
 Lemma py_len_nonneg {A} (l : list A) : 0 <= py_len l.
 Proof. unfold py_len. lia. Qed.
 
@@ -103,6 +109,15 @@ Lemma py_in_map {A B} (eqa : A -> A -> bool) (eqb : B -> B -> bool) (f : A -> B)
   (forall y, eqb (f x) (f y) = eqa x y) -> py_in eqb (f x) (map f l) = py_in eqa x l.
 Proof.
   intros H. unfold py_in. induction l as [|y t IH]; simpl; auto. rewrite H, IH. reflexivity.
+Qed.
+
+(* `k in d` / d[k] through d.pop(k) *)
+Lemma py_dict_get_pop {K V} (eqb : K -> K -> bool) (d : list (K * V)) k :
+  py_dict_get eqb d k = option_map fst (py_dict_pop eqb d k).
+Proof.
+  induction d as [|[k' v] t IH]; simpl; auto.
+  destruct (eqb k' k); [reflexivity|]. rewrite IH.
+  destruct (py_dict_pop eqb t k) as [[x t']|]; reflexivity.
 Qed.
 
 Section DictLemmas.
